@@ -3,6 +3,7 @@ import Ledger.Base.Sha256
 import Ledger.Log.Safe
 import Ledger.Log.SqlHash
 import Ledger.Log.Chain
+import Ledger.Log.PayloadCanon
 
 /-!
 Handlers of `ldriver_hash` (core-only):
@@ -288,10 +289,109 @@ def handleChain : Handler := fun inp out => do
              prop := prop && propModel, propModel, nontrivial := logs.length ≥ 2, tags,
              note := if prop then "" else "stored chain (SQL model) differs from the reference chain (ChainLog)", sig }
 
+/-! ### payload (C08, payload part) -/
+
+def bytesToString (b : Bytes) : String :=
+  match String.fromUTF8? (ByteArray.mk b.toArray) with
+  | some s => s
+  | none => "<invalid utf-8>"
+
+partial def jvalToJson : JVal → Except String Json
+  | .null => pure Json.null
+  | .bool b => pure (Json.bool b)
+  | .num i => pure (Json.num (JsonNumber.fromInt i))
+  | .str s => pure (Json.str (bytesToString s))
+  | .time d => pure (Json.str (bytesToString (goTime d)))
+  | .raw b => Json.parse (bytesToString b)
+  | .arr xs => do pure (Json.arr (← xs.mapM jvalToJson).toArray)
+  | .obj kvs => do
+    let fs ← kvs.mapM fun (k, v) => do pure (bytesToString k, ← jvalToJson v)
+    pure (Json.mkObj fs)
+
+def objFields (j : Json) : Option (List (String × Json)) :=
+  match j with
+  | .obj m => some m.toList
+  | _ => none
+
+def eraseKeys (j : Json) (ks : List String) : Json :=
+  match objFields j with
+  | some fs => Json.mkObj (fs.filter fun (k, _) => !ks.contains k)
+  | none => j
+
+def mapObjValues (j : Json) (f : Json → Json) : Json :=
+  match objFields j with
+  | some fs => Json.mkObj (fs.map fun (k, v) => (k, f v))
+  | none => j
+
+def mapKeys (j : Json) (ks : List String) (f : Json → Json) : Json :=
+  match objFields j with
+  | some fs => Json.mkObj (fs.map fun (k, v) => (k, if ks.contains k then f v else v))
+  | none => j
+
+/-- drop the derived members of a real transaction JSON (ignored by the decoder) -/
+def cleanTx (j : Json) : Json :=
+  let j := eraseKeys j ["reverted", "preCommitVolumes", "preCommitEffectiveVolumes"]
+  let cleanPcv (v : Json) : Json := mapObjValues v fun byAsset => mapObjValues byAsset fun vol => eraseKeys vol ["balance"]
+  mapKeys j ["postCommitVolumes", "postCommitEffectiveVolumes"] cleanPcv
+
+def cleanPayloadJson (j : Json) : Json := mapKeys j ["transaction", "revertedTransaction"] cleanTx
+
+def decodeErrStr : DecodeErr → String
+  | .shape w => "shape:" ++ w
+  | .range => "range"
+  | .unknownTargetType => "unknown-target-type"
+  | .floatTarget => "float-target"
+
+def handlePayload : Handler := fun inp out => do
+  let p ← payloadOfJson inp
+  let canon := canonicalPayload p
+  let kind := payloadKind p
+  let gotPanic := optStrField out "panic"
+  let gotErr := optStrField out "err"
+  let gotJsonHex := optStrField out "json"
+  let tree := encodePayload p
+  let modelJson ← jvalToJson tree
+  let modelDec := decodePayload p.type tree
+  let tags := ["payload:" ++ kind, if canon then "canonical" else "non-canonical"]
+  if gotJsonHex = "" then
+    -- the real json.Marshal panicked (nil reverted id is not involved here; nothing to compare)
+    pure { model := Json.mkObj [("note", "real marshal panicked")], agree := !canon, prop := !canon,
+           nontrivial := false, tags := tags ++ ["marshal-panic"], sig := if canon then "C08:payload-marshal-panic" else "" }
+  else
+  let realJson ← Json.parse (bytesToString (← unhex gotJsonHex))
+  let treeAgree := cleanPayloadJson realJson == modelJson
+  -- decode outcome
+  let realOutcome : String :=
+    if gotErr ≠ "" then "error"
+    else if gotPanic ≠ "" && (out.getObjVal? "decoded").toOption.all (·.isNull) then "error"
+    else "ok"
+  let (decAgree, decNote, decodedEqOrig) ← match modelDec with
+    | .error e => pure (realOutcome = "error" || (e = .floatTarget && optStrField ((out.getObjValD "decoded")) "targetOther" = "float64"),
+                        "model decode error " ++ decodeErrStr e, false)
+    | .ok mp =>
+      if realOutcome ≠ "ok" then pure (false, "model decodes, real fails: " ++ gotErr ++ gotPanic, false) else
+      let dj ← field out "decoded"
+      if optStrField dj "targetOther" ≠ "" then pure (false, "real target id of type " ++ optStrField dj "targetOther", false) else
+      let rp ← payloadOfJson dj
+      pure (decide (rp = mp), if rp = mp then "" else "decoded payload differs from the model's", decide (rp = p))
+  let stable := (out.getObjValD "stableJson").getBool?.toOption.getD false
+  let sameMemento := (out.getObjValD "sameMemento").getBool?.toOption.getD false
+  -- C08 payload predicate on the REAL outputs: canonical ⇒ decodes to the original, same memento, stable JSON
+  let mementoOk := sameMemento || (mementoBytes p).toBool = false
+  let prop := !canon || (realOutcome = "ok" && decodedEqOrig && mementoOk && (stable || kind = "insertedSchema"))
+  let propModel := !canon || modelDec = .ok p
+  let agree := treeAgree && decAgree
+  pure { model := Json.mkObj [("tree", modelJson), ("decode", match modelDec with | .ok _ => "ok" | .error e => decodeErrStr e)],
+         agree, prop, propModel, nontrivial := canon,
+         tags := tags ++ [match modelDec with | .ok _ => "decode:ok" | .error e => "decode:" ++ decodeErrStr e],
+         note := (if treeAgree then "" else "JSON tree differs; ") ++ decNote,
+         sig := if !agree then "C08:payload-model-mismatch" else if !prop then "C08:payload-roundtrip" else "" }
+
 def hashHandlers : List (String × Handler) := [
   ("sha", handleSha),
   ("gohash", handleGoHash),
-  ("chain", handleChain)
+  ("chain", handleChain),
+  ("payload", handlePayload)
 ]
 
 end Ledger.Driver
